@@ -26,7 +26,7 @@ class CheckC17(core.Check):
     def plan(self):
         rnd = random.Random(self.seed * 31337 + 17)
         descs = []
-        reps = 1 if self.tier == "quick" else 6
+        reps = 4 if self.tier == "quick" else 60
         for p, ps in all_variants():
             for dh in DHS:
                 for _ in range(reps):
